@@ -1,13 +1,18 @@
 #!/usr/bin/env python3
-"""usage: bin/intake.py Cxx   - copies /tmp/wt/Cxx/_out/{patchK.diff,demoK_test.go,metaK.json} to /verif/seeded/Cxx-K/ and confirms each"""
+"""usage: bin/intake.py Cxx [--root /tmp/wt2] [--offset 2]   - copies /tmp/wt/Cxx/_out/{patchK.diff,demoK_test.go,metaK.json} to /verif/seeded/Cxx-K/ and confirms each"""
 import sys, os, shutil, glob, json, subprocess, re
 cid = sys.argv[1]
 extra = sys.argv[2:]
-src = f"/tmp/wt/{cid}/_out"
+root, off = "/tmp/wt", 0
+if "--root" in extra:
+    i = extra.index("--root"); root = extra[i + 1]; del extra[i:i + 2]
+if "--offset" in extra:
+    i = extra.index("--offset"); off = int(extra[i + 1]); del extra[i:i + 2]
+src = f"{root}/{cid}/_out"
 V = os.path.dirname(os.path.dirname(os.path.abspath(__file__)))
 for pf in sorted(glob.glob(src + "/patch*.diff")):
     k = re.search(r"patch(\d+)\.diff", pf).group(1)
-    d = f"{V}/seeded/{cid}-{k}"
+    d = f"{V}/seeded/{cid}-{int(k) + off}"
     os.makedirs(d, exist_ok=True)
     shutil.copy(pf, d + "/patch.diff")
     for f in glob.glob(f"{src}/demo{k}*"):
